@@ -1,6 +1,10 @@
 use std::{borrow::Cow, fmt::Display, sync::Arc};
 
-use pyo3::{exceptions::PyValueError, prelude::*, types::PyList};
+use pyo3::{
+    exceptions::PyValueError,
+    prelude::*,
+    types::{PyInt, PyList},
+};
 
 #[derive(Debug, Clone)]
 pub(crate) enum FieldValue {
@@ -19,6 +23,18 @@ impl FieldValue {
     #[inline]
     pub(crate) fn is_null(&self) -> bool {
         matches!(self, FieldValue::Null)
+    }
+
+    /// The discriminant used to decide whether list elements are "of the same type".
+    ///
+    /// `Int64` and `Uint64` are two representations of the same Python / Trustfall type `int`,
+    /// so they must compare as the same kind.
+    #[inline]
+    fn kind_discriminant(&self) -> std::mem::Discriminant<FieldValue> {
+        match self {
+            FieldValue::Uint64(_) => std::mem::discriminant(&FieldValue::Int64(0)),
+            other => std::mem::discriminant(other),
+        }
     }
 
     #[inline]
@@ -103,7 +119,11 @@ impl<'a, 'py> pyo3::FromPyObject<'a, 'py> for FieldValue {
             Ok(FieldValue::Int64(inner))
         } else if let Ok(inner) = value.extract::<u64>() {
             Ok(FieldValue::Uint64(inner))
-        } else if let Ok(inner) = value.extract::<f64>() {
+        } else if !value.is_instance_of::<PyInt>()
+            && let Ok(inner) = value.extract::<f64>()
+        {
+            // Python ints outside the `i64` and `u64` ranges must not be silently rounded
+            // to a float: `f64` extraction accepts ints, so they are excluded explicitly.
             if inner.is_finite() {
                 Ok(FieldValue::Float64(inner))
             } else {
@@ -130,10 +150,10 @@ impl<'a, 'py> pyo3::FromPyObject<'a, 'py> for FieldValue {
                 }
             };
             if let Some(first) = first_non_null {
-                let expected = std::mem::discriminant(first);
+                let expected = first.kind_discriminant();
                 for other in iter {
                     if !other.is_null() {
-                        let next_discriminant = std::mem::discriminant(other);
+                        let next_discriminant = other.kind_discriminant();
                         if expected != next_discriminant {
                             let first_type = first.python_type_name();
                             let other_type = other.python_type_name();
